@@ -60,6 +60,11 @@ def plan(tier, seed):
                 if tier == "quick" and r == 2 and "settings" in ks and d["settings"] not in (0, 3, 4, 7, 24, 31) and not ({"dataset", "fc", "nac"} & set(ks)):
                     continue
                 cases.append(dict(d, kind="saveload"))
+    # save history: another save() with each of the 33 settings dictionaries happens in the same process just before the
+    # save under test (three representative calculations, default and explicit settings)
+    for pre in [-1] + list(range(32)):
+        for dev in ({"nac": "born"}, {"fc": "full", "nac": "born+method"}, {"dataset": "none", "fc": "compact"}, {"nac": "born", "settings": 31}, {"nac": "born", "settings": 4}):
+            cases.append(dict(DEFAULT, kind="saveload", pre=pre, **dev))
     groups = [cases[k:k + 25] for k in range(0, len(cases), 25)]
     fl = []
     for name in ("NaCl", "wurtzite", "tri3", "rhomb", "hcp", "Cr-col", "trigP3"):
@@ -199,6 +204,11 @@ def run_saveload(case, seed):
         eff["force_constants"] = True
     with tempfile.TemporaryDirectory(prefix="c16_") as td:
         fn = os.path.join(td, "phonopy_params.yaml")
+        if case.get("pre") is not None:
+            tag += "/after-save"
+            php, _ = build(dict(DEFAULT, fc="full", nac="born"), seed)
+            pset = None if case["pre"] == -1 else {k: bool(case["pre"] >> i & 1) for i, k in enumerate(SKEYS)}
+            php.save(os.path.join(td, "previous.yaml"), settings=pset)
         try:
             out = ph.save(fn, settings=settings, compression=case["compression"])
         except Exception as e:
